@@ -47,4 +47,60 @@ theorem workers_of_start (port : Nat) :
     (Emu.start port false false).workers = [.acceptLoop, .signalMonitor] := by
   constructor <;> rfl
 
+/-! ### termination and connections that are being accepted (D87) -/
+
+/-- once terminated, nothing in the table is open and nothing new is taken off the listener -/
+def LInv (s : LState) : Prop := s.terminated = true → (s.listening = false ∧ ∀ c ∈ s.table, c.2 = false)
+
+theorem linv_step (s : LState) (e : LEv) (h : LInv s) : LInv (lstep true s e) := by
+  cases e with
+  | acceptBegin id =>
+    simp only [lstep]
+    by_cases hl : s.listening = true
+    · simp only [hl, ↓reduceIte]; intro ht; exact absurd (h ht).1 (by simp [hl])
+    · simp only [hl, Bool.false_eq_true, ↓reduceIte]; exact h
+  | register id =>
+    simp only [lstep]
+    by_cases hc : s.inFlight.contains id = true
+    · simp only [hc, ↓reduceIte]
+      intro ht
+      have ht' : s.terminated = true := ht
+      refine ⟨(h ht').1, ?_⟩
+      intro c hc
+      rcases List.mem_append.mp hc with e | e
+      · exact (h ht').2 c e
+      · simp only [List.mem_singleton] at e; subst e; simp [ht']
+    · simp only [hc, Bool.false_eq_true, ↓reduceIte]; exact h
+  | clientCloses id =>
+    intro ht
+    refine ⟨(h ht).1, ?_⟩
+    intro c hc
+    exact (h ht).2 c (List.mem_filter.mp hc).1
+  | terminate =>
+    intro _
+    refine ⟨rfl, ?_⟩
+    intro c hc
+    obtain ⟨d, _, rfl⟩ := List.mem_map.mp hc
+    rfl
+
+/-- **After termination no connection of the instance is open, whenever it was accepted** — for every
+    interleaving of accepts, registrations, hang-ups and the termination itself. -/
+theorem all_closed_after_termination (evs : List LEv) :
+    (lrun true {} evs).terminated = true → ∀ c ∈ (lrun true {} evs).table, c.2 = false := by
+  have : LInv (lrun true {} evs) := by
+    suffices ∀ s, LInv s → LInv (lrun true s evs) from this {} (by intro h; cases h)
+    induction evs with
+    | nil => intro s h; exact h
+    | cons e r ih => intro s h; exact ih _ (linv_step s e h)
+  intro ht
+  exact (this ht).2
+
+/-- D87 on the behaviour before the repair: a connection taken off the listener before the termination and
+    registered after it stays open -/
+theorem late_accept_stays_open_before_repair :
+    (lrun false {} [.acceptBegin 7, .terminate, .register 7]).table = [(7, true)] := by decide
+
+theorem late_accept_closed_after_repair :
+    (lrun true {} [.acceptBegin 7, .terminate, .register 7]).table = [(7, false)] := by decide
+
 end RedisEmu
